@@ -671,6 +671,10 @@ func runSpecOnce(kind string, state uint64, res *hlib.Result) (d string, trace [
 			d, trace = specC03(r, res)
 		case "c13":
 			d, trace = specC13(r, res)
+		case "c02fault", "c03fault":
+			d, trace = specFault(kind, r, res)
+		case "c02faultall", "c03faultall":
+			d, trace = specFaultAll(kind, r, state == 0, res)
 		case "c03nilkey":
 			d, trace = specNilKey(res)
 		case "c03nilval":
@@ -745,6 +749,10 @@ func runSpec(rng *hlib.Rng, n int, focus string, res *hlib.Result) {
 	for _, f := range res.Failures {
 		seen[f.Sig] = true
 	}
+	if (focus == "c02" || focus == "c03") && n > 0 {
+		// every single write x every fault position on a fixed tree with a prefix chain
+		runSpecCase(focus+"faultall", 0, res)
+	}
 	if focus == "c03" && n > 0 {
 		runSpecCase("c03nilkey", 0, res)
 		runSpecCase("c03nilval", 0, res)
@@ -755,7 +763,15 @@ func runSpec(rng *hlib.Rng, n int, focus string, res *hlib.Result) {
 	for i := 0; i < n && len(res.Failures) < 10; i++ {
 		cr := rng.Fork()
 		before := len(res.Failures)
-		runSpecCase(focus, cr.Seed(), res)
+		kind := focus
+		if (focus == "c02" || focus == "c03") && i%3 == 2 {
+			// fault histories: a failed operation on a lazily loaded tree has no effect (fault.go)
+			kind = focus + "fault"
+			if i%12 == 2 {
+				kind = focus + "faultall"
+			}
+		}
+		runSpecCase(kind, cr.Seed(), res)
 		if len(res.Failures) > before {
 			// one witness per signature
 			sig := res.Failures[len(res.Failures)-1].Sig
